@@ -2,6 +2,7 @@
 import itertools
 import math
 import random
+import warnings
 from fractions import Fraction
 
 import numpy as np
@@ -16,18 +17,22 @@ RULE = ("kinds: 'init' (exact regime: dyadic meshes 1-4 dims with 0-3 aligned, p
         "subregions; nvdim 1-4; dtype float/int/complex/bool; custom or default component labels; value = scalar, zero "
         "scalar, vector, per-cell array (*n,nvdim) or n, polynomial callable (coefficient table sent to the model), "
         "dictionary over subregions with any leaf kind and default absent/constant/array/callable/field, or a source field "
-        "on a coarser/finer/shifted mesh) -> whole array, 14-20 sample points incl. faces and outside points, every "
-        "component, list(field), 3 lines, a second valid update_field_values and a rejected assignment (state after) must "
-        "EQUAL the rational model; 'malformed' (wrong shape / component count / type through constructor, "
-        "update_field_values and the array setter: rejected and state unchanged); 'tol' (arbitrary binary64 meshes at "
-        "scales 1e-9..10: 2^-40 relative bound on continuous outputs). Oracle on the real code alone: per-cell "
-        "re-evaluation of the specification at mesh.index2point(i) with explicit first-match over mesh.subregions, "
-        "containing-cell test for samples and source fields, column/iteration/line definitions. non-trivial = accepted "
-        "field with >= 2 cells whose array is not constant, or a rejected malformed specification")
+        "on a coarser/finer/shifted mesh) -> the constructor (array AND labels), 14-20 sample points incl. faces and outside "
+        "points, every component, list(field), 3 lines + one with fewer than 2 points (points, values, distances and the WHOLE "
+        "data frame: column names in order and every column's content, also where a coordinate column is overwritten), a "
+        "history update_field_values(valid) / rejected assignment / array setter(original array) step by step and in one go "
+        "must EQUAL the rational model; 'init' label variants (12 %: wrong count, duplicates, attribute names, empty list, "
+        "long names, a mesh dimension named like 'r' or a value column); 'malformed' (wrong shape / component count / type "
+        "through constructor, update_field_values and the array setter: rejected and state unchanged); 'tol' (arbitrary "
+        "binary64 meshes at scales 1e-9..10: 2^-40 relative bound on continuous outputs). Oracle on the real code alone: "
+        "per-cell re-evaluation of the specification at mesh.index2point(i) with explicit first-match over mesh.subregions, "
+        "containing-cell test for samples and source fields, column/iteration/line definitions, nvdim value columns per line. "
+        "non-trivial = accepted field with >= 2 cells whose array is not constant, or a rejected malformed specification")
 TRUSTED = ["harness/c02.py, harness/fieldio.py + driver JSON glue (Gaussian rationals, polynomial coefficient tables)",
            "NumPy broadcasting in np.full / slice assignment, xarray .sel(method='nearest') (nearest centre, ties to the "
            "larger index), pandas data frame columns: modelled by contract and exercised by the correspondence run",
-           "Line 'r' column uses sqrt: compared squared"]
+           "Line 'r' column uses sqrt: compared squared",
+           "the attribute table of Field (dir(field)) is handed to the model as the list of names the vdims setter refuses"]
 ASSUMPTIONS = ["values are representable in the requested dtype (integers for int, 0/1 for bool): dtype casting itself is NumPy's",
                "reading of 'wrong shape': NumPy cannot broadcast it to (*n, nvdim) or its last axis is not nvdim; arrays that "
                "NumPy broadcasts (e.g. shape (n_y, nvdim), or a non-zero scalar 'default' for nvdim > 1) are accepted by the code, "
@@ -35,12 +40,30 @@ ASSUMPTIONS = ["values are representable in the requested dtype (integers for in
                "no NaN among the specified values (NaN is the code's sentinel for 'not yet assigned'); dictionaries are not nested; "
                "a source field uses the same dimension names as the target mesh",
                "exact-regime inputs (dyadic geometry, small dyadic values, degree <= 2): every binary64 operation on the code path is exact"]
-UNPROVED = ["the data frame's column names are not modelled: the coordinate column clobbered by a value/distance column of the same name "
-            "(finding D42) is seen by the oracle only",
-            "mesh order = first-index-fastest enumeration is C01's indices_refines; C02 proves that iteration follows Mesh.indices"]
+UNPROVED = ["dtype casting is NumPy's: the theorems hold for every value type because the model only moves values; that a value "
+            "given as a Python int / float / complex ends up in the requested dtype unchanged is the ASSUMPTION 'representable', "
+            "and the dtype the array gets when none is requested (max(value dtype, float64)) is not modelled",
+            "the label check `hasattr(self, c)` of the vdims setter is modelled by a list of reserved names handed to the model "
+            "(dir(field)); non-string labels (TypeError) are not modelled; Line.n / Line.dim and the renaming setters of Line are not modelled",
+            "xarray's nearest-neighbour selection, NumPy broadcasting and pandas' column assignment (existing name: overwritten in "
+            "place, new name: appended) are modelled by contract; the frame's 'r' column is held squared (sqrt is NumPy's)",
+            "finding D42 (open) is proved as a NEGATIVE statement about the code-shaped model (lineData_clash_value_column, "
+            "lineData_clash_r): no positive theorem can hold for clashing names until the code changes"]
 BUDGET = {"quick": 80, "thorough": 900}
 
 LABELS = ["a", "b", "c", "d", "e", "mx", "my", "mz", "px", "q1"]
+# names for which hasattr(field, name) holds on a field without labels: the vdims setter refuses them as labels
+_RESERVED = []
+
+
+def reserved_names():
+    if not _RESERVED:
+        m = df.Mesh(p1=(0.0,), p2=(1.0,), n=(1,))
+        f = df.Field(m, nvdim=1)
+        _RESERVED.extend(sorted(n for n in dir(f) if isinstance(n, str)))
+    return _RESERVED
+
+
 KINDS = ["float", "float", "float", "complex", "int", "bool"]
 
 
@@ -645,16 +668,74 @@ def gen_vdims(rng, nv):
     return rng.sample(LABELS, nv)
 
 
+ATTR_LABELS = ["mesh", "array", "norm", "line", "mean", "nvdim", "valid", "vdims", "unit"]
+
+
+def gen_label_variant(rng, nv, ms):
+    """(vdims, mode): label lists the vdims setter refuses or treats specially, and clashes of a value column
+    name with a mesh dimension name (finding D42)"""
+    mode = rng.choice(["count", "dup", "reserved", "empty", "clash", "clash", "long"])
+    if mode == "count":
+        k = rng.choice([x for x in (nv - 1, nv + 1, nv + 2) if x >= 1])
+        return rng.sample(LABELS, k), mode
+    if mode == "dup" and nv >= 2:
+        v = rng.sample(LABELS, nv)
+        v[rng.randrange(1, nv)] = v[0]
+        return v, mode
+    if mode == "reserved":
+        v = rng.sample(LABELS, nv)
+        v[rng.randrange(nv)] = rng.choice(ATTR_LABELS)
+        return v, mode
+    if mode == "empty":                                  # vdims=[] removes the labels (also of a vector field: fixed finding D45)
+        return [], mode
+    if mode == "long":
+        return [f"{rng.choice(LABELS)}_{i}" for i in range(nv)], "good"
+    # clash: rename one mesh dimension to 'r' or to a value column name of this field
+    v = rng.sample(LABELS, nv) if (nv > 3 or rng.random() < 0.5) else None
+    if v is not None:
+        cols = ["v" + l for l in v]
+    elif nv == 1:
+        cols = ["v"]
+    else:
+        cols = ["v" + l for l in "xyz"[:nv]]
+    ndim = len(ms["n"])
+    dims = list(ms.get("dims") or (["x", "y", "z"][:ndim] if ndim <= 3 else [f"x{i}" for i in range(ndim)]))
+    name = rng.choice(["r"] + cols)
+    if name not in dims:
+        dims[rng.randrange(ndim)] = name
+    ms["dims"] = dims
+    return v, "clash"
+
+
 def gen_init(rng, tier, force_kind=None):
     ms = fieldio.gen_mesh_spec(rng, max_cells=72 if tier == "quick" else 120, nmax=6)
     subs = gen_subs(rng, ms["n"], rng.choice([0, 1, 2, 2, 3, 3]))
     kind = force_kind or rng.choice(KINDS)
     nv = rng.choice([1, 1, 2, 3, 3, 4])
+    if rng.random() < 0.12:
+        return gen_labels_case(rng, ms, kind, nv)
     case = dict(kind="init", mesh=ms, subs=subs, dtype=kind, nvdim=nv, vdims=gen_vdims(rng, nv),
                 dtype_arg=(kind != "float" or rng.random() < 0.5),
                 spec=gen_spec(rng, kind, nv, ms, subs), spec2=gen_spec(rng, kind, nv, ms, subs),
                 bad=gen_bad_leaf(rng, kind, nv, ms), via=rng.choice(["update", "setter"]), sub=rng.getrandbits(32))
     return case
+
+
+def gen_labels_case(rng, ms, kind, nv):
+    """an 'init' case whose point is the component labels: per-cell array value (all entries different where the
+    dtype allows), no subregions"""
+    n = list(ms["n"])
+    vdims, mode = gen_label_variant(rng, nv, ms)
+    size = int(np.prod(n)) * nv
+    if kind in ("float", "int"):
+        vals = rng.sample(range(-3 * size - 5, 3 * size + 5), size)
+        data = [str(v) for v in vals]
+    else:
+        data = [gen_num(rng, kind) for _ in range(size)]
+    spec = dict(k="arr", shape=n + [nv], data=data)
+    return dict(kind="init", mesh=ms, subs=[], dtype=kind, nvdim=nv, vdims=vdims, vdims_mode=mode, dtype_arg=True,
+                spec=spec, spec2=dict(k="scalar", v="0"), bad=dict(k="bad", what="str"), via=rng.choice(["update", "setter"]),
+                sub=rng.getrandbits(32))
 
 
 def gen_malformed(rng, tier):
@@ -775,8 +856,8 @@ def make_field(mesh, case, value):
     kw = dict(nvdim=case["nvdim"], value=value)
     if case.get("dtype_arg", True):
         kw["dtype"] = np_dtype(case["dtype"])
-    if case.get("vdims"):
-        kw["vdims"] = case["vdims"]
+    if case.get("vdims") is not None:
+        kw["vdims"] = list(case["vdims"])
     return df.Field(mesh, **kw)
 
 
@@ -900,6 +981,7 @@ def probe(f, case, rng, fail, exact=True):
             lines.append(rec)
             continue
         data = ln.data
+        rec["frame"] = [[str(c), [num_j(val_c(x)) for x in data[c].tolist()]] for c in data.columns]
         cols = ["r"] + list(mesh.region.dims) + list(ln.value_columns)
         if len(set(cols)) != len(cols):
             clash = sorted(c for c in set(cols) if cols.count(c) > 1)
@@ -942,6 +1024,15 @@ def probe(f, case, rng, fail, exact=True):
             if abs(rj * rj - d2) > Fraction(2) ** -48 * max(d2, Fraction(1, 10**300)):
                 fail(f"line distance {j}: r = {r[j]} but the point is sqrt({float(d2)}) from p1")
                 break
+    # ---- fewer than two points: the property demands nothing, the outcome is compared with the model
+    k = rng.choice([0, 1])
+    q1 = [float(a + c / 2) for a, c in zip(pmin, cell)]
+    q2 = [float(b - c / 2) for b, c in zip(pmax, cell)] if rng.random() < 0.5 else q1
+    with np.errstate(all="ignore"):
+        with warnings.catch_warnings():
+            warnings.simplefilter("ignore")
+            st, ln = _err(lambda: f.line(p1=q1, p2=q2, n=k))
+    lines.append(dict(p1=Qs(q1), p2=Qs(q2), n=k, st=st, bad=False, short=True))
     out["lines"] = lines
     return out
 
@@ -1021,9 +1112,12 @@ def run_impl(case):
 
     st, f = _err(lambda: make_field(mesh, case, value))
     obs["st"] = st
+    lmode = case.get("vdims_mode")
+    if lmode:
+        obs["tags"].append("labels:" + lmode + (":rejected" if st == "err" else ""))
     if st == "err":
         obs["exc"] = f
-        if validity == "valid":
+        if validity == "valid" and lmode not in ("count", "dup", "reserved"):
             fail(f"well-formed specification rejected ({f}): {describe(spec)}")
         obs["nontrivial"] = case["kind"] == "malformed"
         return obs
@@ -1035,6 +1129,7 @@ def run_impl(case):
         obs["skip"] = True
         return obs
     obs["array"] = dict(shape=[int(k) for k in f.array.shape], data=nums)
+    obs["vdims"] = list(f.vdims) if f.vdims is not None else None
     if not exact:
         pm = obs["mesh_json"]["region"]
         scale = 1.0
@@ -1076,6 +1171,17 @@ def run_impl(case):
         fail(f"specification of the wrong shape, component count or type accepted by {case['via']}: {describe(case['bad'])}")
     elif not (f.array.shape == snap.shape and np.array_equal(f.array, snap) and f.array.dtype == snap.dtype):
         fail(f"rejected assignment ({case['via']}) changed the field")
+    # ---- fourth step of the history: the array the field was created with is assigned back through the setter
+    if st3 != "ok" and obs["after2"]["data"] is not None:
+        arr0 = np.array([num_py(x if isinstance(x, str) else list(x), kind) for x in obs["array"]["data"]],
+                        dtype=np_dtype(kind)).reshape(obs["array"]["shape"])
+        st4, e4 = _err(lambda: setattr(f, "array", arr0))
+        obs["st4"] = st4
+        obs["after4"] = vf_json(f, obs["mesh_json"])
+        if st4 != "ok":
+            fail(f"array of shape (*n, nvdim) rejected by the array setter ({e4})")
+        elif not (tuple(f.array.shape) == tuple(arr0.shape) and np.array_equal(f.array, arr0)):
+            fail("the array setter does not store the per-cell array it is given")
     return obs
 
 
@@ -1113,7 +1219,8 @@ def _model_requests(case, obs, mj, nv):
         if case["via"] == "update":
             return [dict(op="update", field=obs["before"], spec=obs["spec_json"])]
         return [dict(op="set_array", field=obs["before"], leaf=obs["spec_json"])]
-    reqs = [dict(op="construct", mesh=mj, nvdim=nv, spec=obs["spec_json"])]
+    reqs = [dict(op="new", mesh=mj, nvdim=nv, spec=obs["spec_json"],
+                 vdims=(list(case["vdims"]) if case.get("vdims") is not None else None), reserved=reserved_names())]
     if obs.get("st") != "ok" or "field" not in obs:
         return reqs
     pr = obs["probe"]
@@ -1127,6 +1234,12 @@ def _model_requests(case, obs, mj, nv):
                 reqs.append(dict(op="update", field=obs["after2"], spec=obs["bad_json"]))
             else:
                 reqs.append(dict(op="set_array", field=obs["after2"], leaf=obs["bad_json"]))
+            if "after4" in obs and obs["after4"]["data"] is not None:
+                # the whole history in one go: accepted update, rejected assignment, accepted setter
+                reqs.append(dict(op="history", field=obs["field"], ops=[
+                    dict(upd=obs["spec2_json"]),
+                    (dict(upd=obs["bad_json"]) if case["via"] == "update" else dict(set=obs["bad_json"])),
+                    dict(set=dict(k="arr", shape=obs["array"]["shape"], data=obs["array"]["data"]))]))
     return reqs
 
 
@@ -1177,7 +1290,9 @@ def compare(case, obs, rs):
         return dis
     if obs["st"] != "ok":
         return dis
-    cmp_array("Field.array", obs["array"], r["ok"], exact, dis)
+    cmp_array("Field.array", obs["array"], r["ok"]["array"], exact, dis)
+    if obs.get("vdims") != r["ok"]["vdims"]:
+        dis.append(f"Field.vdims (given {case.get('vdims')}, nvdim {case['nvdim']}): impl {obs.get('vdims')} vs model {r['ok']['vdims']}")
     if len(rs) < 2:
         return dis
     pr, mp = obs["probe"], rs[1]
@@ -1202,6 +1317,11 @@ def compare(case, obs, rs):
                 break
     for l, m in zip(pr["lines"], mp["lines"]):
         name = f"line({l['p1']} -> {l['p2']}, n={l['n']})"
+        if ("ok" in m) != (l["st"] in ("ok", "collision")):
+            dis.append(f"{name}: impl {l['st']} vs model {m}")
+            continue
+        if "frame" in l:
+            cmp_frame(name, l["frame"], m["ok"]["frame"], exact, obs, dis)
         if l["st"] == "collision":
             continue
         if ("ok" in m) != (l["st"] == "ok"):
@@ -1237,7 +1357,38 @@ def compare(case, obs, rs):
         cmp_after(f"update_field_values({describe(case['spec2'])})", obs["st2"], obs["after2"], rs[2], dis)
         if len(rs) > 3:
             cmp_after(f"{case['via']}({describe(case['bad'])})", obs["st3"], obs["after3"], rs[3], dis)
+        if len(rs) > 4 and "after4" in obs:
+            cmp_array("state after the history update / rejected assignment / setter",
+                      dict(shape=obs["after4"]["shape"], data=obs["after4"]["data"]), rs[4]["state"], True, dis)
     return dis
+
+
+def cmp_frame(name, impl, model, exact, obs, dis):
+    """data frame of a line: column names in order, and the content of every column (model-follows-code also where a
+    coordinate column is overwritten, finding D42)"""
+    if [c[0] for c in impl] != [c[0] for c in model]:
+        dis.append(f"{name}: data frame columns impl {[c[0] for c in impl]} vs model {[c[0] for c in model]}")
+        return
+    span = max(abs(F(x)) for x in obs["mesh_json"]["region"]["pmin"] + obs["mesh_json"]["region"]["pmax"])
+    for (col, a), (_, mc) in zip(impl, model):
+        kind, b = mc["kind"], mc["data"]
+        if len(a) != len(b):
+            dis.append(f"{name}: column {col}: {len(a)} rows vs model {len(b)}")
+            return
+        if kind == "dist2":
+            for j, (x, y) in enumerate(zip(a, b)):
+                rr = resp_c(x)[0]
+                tol = Fraction(2) ** -40 * rr + (0 if exact else Fraction(2) ** -44 * span)
+                lo_, hi_ = max(rr - tol, 0), rr + tol
+                if resp_c(x)[1] != 0 or not (lo_ * lo_ <= F(y) <= hi_ * hi_):
+                    dis.append(f"{name}: column {col} (distance) row {j}: impl {x} squared vs model r^2 {y}")
+                    return
+        elif kind == "num":
+            if not cmp_nums(f"{name}: column {col} (coordinate)", a, b, exact, dis, scale=float(span), rel=2**-44):
+                return
+        elif exact:
+            if not cmp_nums(f"{name}: column {col} (values)", a, b, True, dis):
+                return
 
 
 def nontrivial(case, obs):
